@@ -242,14 +242,16 @@ impl RdbEngine {
             // Write all key-value pairs
             for key in keys {
                 if let GetResult::Found(value) = storage.get(db, &key)? {
-                    // Check for expiration
-                    let expire_time = storage.ttl(db, &key)?
-                        .map(|ttl| SystemTime::now() + ttl);
-                    
                     // Write expiration if present
-                    if let Some(expire) = expire_time {
+                    if let Some(ttl) = storage.ttl(db, &key)? {
+                        let now_ms = SystemTime::now()
+                            .duration_since(UNIX_EPOCH)
+                            .unwrap()
+                            .as_millis() as u64;
+                        // A TTL too long for a millisecond deadline is written as the greatest deadline
+                        let ttl_ms = u64::try_from(ttl.as_millis()).unwrap_or(u64::MAX);
+                        let timestamp = now_ms.saturating_add(ttl_ms);
                         buffer.push(RdbOpcode::ExpireTimeMs as u8);
-                        let timestamp = expire.duration_since(UNIX_EPOCH).unwrap().as_millis() as u64;
                         buffer.extend_from_slice(&timestamp.to_le_bytes());
                     }
                     
@@ -546,10 +548,13 @@ impl<W: Write> RdbWriter<W> {
     fn write_key_value(&mut self, key: &[u8], value: &Value, ttl: Option<Duration>) -> io::Result<()> {
         // Write expiry if present
         if let Some(ttl) = ttl {
-            let expiry_ms = SystemTime::now()
+            let now_ms = SystemTime::now()
                 .duration_since(UNIX_EPOCH)
                 .unwrap()
-                .as_millis() as u64 + ttl.as_millis() as u64;
+                .as_millis() as u64;
+            // A TTL too long for a millisecond deadline is written as the greatest deadline
+            let ttl_ms = u64::try_from(ttl.as_millis()).unwrap_or(u64::MAX);
+            let expiry_ms = now_ms.saturating_add(ttl_ms);
             
             self.write_byte(RdbOpcode::ExpireTimeMs as u8)?;
             self.write_u64_le(expiry_ms)?;
